@@ -424,7 +424,7 @@ def shiftbound_cases():
             out.append(("shiftbound", back(B("BShl", a, pos)), lay, 1))
             out.append(("shiftbound", back(B("BLsh", a, pos)), lay, 1))
             out.append(("shiftbound", B("BShr", a, neg), lay, 1))
-    lay = {"base": 0o1000, "link": None, "pad": 2, "consts": {"cb0": 40, "cb1": 16, "ca0": 64, "ca1": 17}}
+    lay = {"base": 0o1000, "link": None, "pad": 2, "consts": {"cb0": 40, "cb1": 16, "ca0": 64, "ca1": 17}, "huge": True}
     one = dec(1)
     for inner in (B("BLsh", one, ("sym", "cb0")), B("BShl", one, ("sym", "ca0")), B("BShl", one, ("sym", "ca1")), B("BAdd", B("BShl", one, ("sym", "cb1")), one)):
         out.append(("shiftbound", B("BShl", one, ("grp", "paren", inner)), lay, 2))      # 1 << (1 _ 40.)
@@ -501,13 +501,25 @@ def run_cases(rng, cases):
         recs.append({"kind": kind, "tree": tree, "lay": lay, "tokens": toks, "text": text, "src": src,
                      "depth": case[3] if len(case) > 3 else (X.depth_of(tree) if tree is not None else 0)})
     # the cases with absurd shift counts run on few processes: a tree that computes such a shift takes 0.5 GB each
-    heavy = [i for i, c in enumerate(cases) if c[0] == "shiftbound"]
-    light = [i for i, c in enumerate(cases) if c[0] != "shiftbound"]
+    # Escalation: the counts that would take minutes and gigabytes if the shift were carried out (2^32 and more) are
+    # only tried once every count just beyond the bound (65537) was seen to be refused; otherwise they are recorded as
+    # not run (the 65537 cases already are the failing inputs).
+    def huge(c):
+        return c[0] == "shiftbound" and (c[2].get("huge") or max(abs(v) for v in c[2]["consts"].values()) > X.HUGE_SHIFT)
+    heavy = [i for i, c in enumerate(cases) if huge(c)]
+    light = [i for i, c in enumerate(cases) if not huge(c)]
     outs = [None] * len(jobs)
-    for idx, procs, chunk in ((light, None, 64), (heavy, 4, 4)):
-        if idx:
-            for i, o in zip(idx, impl.pmap("assemble", [jobs[i] for i in idx], procs=procs, chunksize=chunk)):
-                outs[i] = o
+    for i, o in zip(light, impl.pmap("assemble", [jobs[i] for i in light], chunksize=64)):
+        outs[i] = o
+    just_beyond = [i for i in light if cases[i][0] == "shiftbound" and max(abs(v) for v in cases[i][2]["consts"].values()) == X.MAX_SHIFT + 1]
+    bound_enforced = all(outs[i]["outcome"] == "failed" for i in just_beyond)
+    if heavy and bound_enforced:
+        for i, o in zip(heavy, impl.pmap("assemble", [jobs[i] for i in heavy], procs=4, chunksize=4)):
+            outs[i] = o
+    elif heavy:
+        C.log(f"shift counts >= 2^32 not tried ({len(heavy)} cases): a count of 65537 was not refused")
+        keep = [i for i in range(len(jobs)) if outs[i] is not None]
+        jobs, recs, outs = [jobs[i] for i in keep], [recs[i] for i in keep], [outs[i] for i in keep]
     # a watchdog hit on a starved machine is not an observation: such cases are run again, alone, with a long limit;
     # after three of them hung again the remaining ones are taken as they are
     confirmed = 0
@@ -625,6 +637,8 @@ def explore(rep, br, tier, seed):
                                 "(thorough: all 27 order x placement x length shapes; quick: 5 of them incl. the all-forward-reference one)")
     rep.exhaustive_parts.append("re-evaluation of one token with changing operands: every infix operator in 11-12 '.'-dependent templates and all 16 "
                                 "pairs of the impure operators / % << >>, inside .repeat bodies of 2-4 copies, as .dword / .word / immediate / index operand")
+    rep.exhaustive_parts.append("left-shift counts 65535 / 65536 / 65537 / 2^32 / 2^64 / 2^100 x {<<, _, >> with negative count} x count given as "
+                                "{literal, constant before, symbol after} x operand {1, -3, 0, address}")
     rep.exhaustive_parts.append("every infix operator on a 15x15 grid of operand values, every prefix operator on 15 values")
     rep.exhaustive_parts.append("9 number spellings x prefix case x digit case x sign on 21 boundary values; bare 8/9 strings; character and radix-50 literals")
     for i in (0, len(recs) // 3, len(recs) - 7, len(recs) - 1):
